@@ -29,7 +29,7 @@
 //	         | {"kind": "protocol", "type": n, "msg": hex} | {"kind": "error", "msg": hex} | {"kind": "panic", "msg": hex},
 //	"request": hex of the request frame (with its 4-byte size) as it travelled, "replies": [hex of reply frames],
 //	"resp_headers": {hex: hex}   response headers the caller's FContext holds after the call,
-//	"opid": "<decimal>" }]}
+//	"opid": "<decimal>", "outcome_text": hex of Error() of the scripted error }]}
 package ext_c03
 
 import (
@@ -708,6 +708,9 @@ func oneCall(reg *labdriver.Registry, rec *recorder, lk link, std *frugal.FStand
 	default:
 		out["err"] = "unknown outcome kind " + c.Outcome.Kind
 		return
+	}
+	if rete != nil {
+		out["outcome_text"] = hex.EncodeToString([]byte(rete.Error()))
 	}
 	rec.reset(func(service, method string) (interface{}, error) { return retv, rete })
 	if mem != nil {
